@@ -555,6 +555,7 @@ def agrees (model impl : String) : Bool :=
 def unknownMemoSt (st : MSt) : MSt := { st with memoKnown := false }
 
 def modelScriptLine (v desc stmts raw : String) : String :=
+  let desc := if desc.startsWith "D" then String.mk (desc.toList.drop 1) else desc
   match (match v with | "v1" => some Version.v1 | "v2" => some .v2 | "v3" => some .v3 | _ => none),
         parseNumDesc desc, parseStmts stmts with
   | some ver, some nd, some ss =>
